@@ -10,7 +10,9 @@
    (hblocked / vblocked: it does not run through the interior of the UNION of the rectangles); a turn to a
    perpendicular direction costs pen and is allowed everywhere except at dst and at src (`noturn src dst`: a state (src, d)
    means "about to leave src travelling d", a state (dst, d) "arrived at dst travelling d"; the sections below are generic in
-   the no-turn predicate nt).  Walks are arbitrary (any number of
+   the no-turn predicate nt).  Further, no move leads INTO src and none OUT of dst (predicates ni / no of the sweep): a path does
+   not pass through its own endpoints, so that doubling back (two turns at one point, which the graph cannot exclude locally) never
+   pays: it would only help to undo the forced first / last direction by running through the endpoint again.  Walks are arbitrary (any number of
    steps, revisits allowed), so this is "minimum over all orthogonal paths on that grid".
    Proof: relaxation-fixpoint argument.  After a round whose signature equals the one before, every move and turn
    inequality holds in the resulting grid (the E/W inequalities were established by the row sweeps against the N/S
@@ -142,7 +144,7 @@ Qed.
 (* ------------------------------------------------------------------ one directional sweep *)
 Section SweepFacts.
   Variables (get : cell -> val) (set : cell -> val -> cell) (p1 p2 : cell -> val) (mk : Z -> zp) (pen : Z)
-            (blocked : Z -> Z -> bool) (nt : zp -> bool).
+            (blocked : Z -> Z -> bool) (nt ni no : zp -> bool).
   Hypothesis get_set : forall c v, get (set c v) = v.
 
   Definition turn_of (x : Z) (c : cell) : val := vturn (vmin (p1 c) (p2 c)) pen (mk x).
@@ -153,7 +155,7 @@ Section SweepFacts.
     (nt (mk (fst a)) = false -> vle (get (snd b)) (turn_of (fst a) (snd a))).
 
   Lemma sweep_rel : forall line carry prev first,
-    Forall2 sw_rel line (sweep get set p1 p2 mk pen blocked nt carry prev first line).
+    Forall2 sw_rel line (sweep get set p1 p2 mk pen blocked nt ni no carry prev first line).
   Proof.
     induction line as [|[x c] t IH]; intros carry prev first; cbn [sweep]; constructor; [|apply IH].
     unfold sw_rel. cbn [fst snd]. split; [reflexivity|]. split; [eexists; reflexivity|].
@@ -163,15 +165,15 @@ Section SweepFacts.
   Qed.
 
   Lemma sweep_adj : forall line carry prev first a b,
-    consecutive (sweep get set p1 p2 mk pen blocked nt carry prev first line) a b ->
-    blocked (fst a) (fst b) = false ->
+    consecutive (sweep get set p1 p2 mk pen blocked nt ni no carry prev first line) a b ->
+    blocked (fst a) (fst b) = false -> no (mk (fst a)) = false -> ni (mk (fst b)) = false ->
     vle (get (snd b)) (vadd (get (snd a)) (Z.abs (fst b - fst a))).
   Proof.
-    induction line as [|[x c] t IH]; intros carry prev first a b C Hb; cbn [sweep] in C;
+    induction line as [|[x c] t IH]; intros carry prev first a b C Hb Hno Hni; cbn [sweep] in C;
       [destruct (consecutive_nil _ _ C)|].
     apply consecutive_cons_inv in C. destruct C as [[-> (t' & E)]|C'].
     - destruct t as [|[x2 c2] t2]; [discriminate|]. cbn [sweep] in E. inversion E; subst. clear E.
-      cbn [fst snd] in *. rewrite !get_set. rewrite Hb.
+      cbn [fst snd] in *. rewrite !get_set. rewrite Hb, Hni, Hno.
       eapply vle_trans; [apply vmin_le_l|apply vmin_le_r].
     - eapply IH; eassumption.
   Qed.
@@ -182,7 +184,7 @@ Definition cnn (c : cell) : Prop := vnn (cN c) /\ vnn (cE c) /\ vnn (cS c) /\ vn
 
 Section DoubleSweep.
   Variables (getF : cell -> val) (setF : cell -> val -> cell) (getB : cell -> val) (setB : cell -> val -> cell)
-            (p1 p2 : cell -> val) (mk : Z -> zp) (pen : Z) (blocked : Z -> Z -> bool) (nt : zp -> bool).
+            (p1 p2 : cell -> val) (mk : Z -> zp) (pen : Z) (blocked : Z -> Z -> bool) (nt ni no : zp -> bool).
   Hypothesis getF_setF : forall c v, getF (setF c v) = v.
   Hypothesis getB_setF : forall c v, getB (setF c v) = getB c.
   Hypothesis p1_setF : forall c v, p1 (setF c v) = p1 c.
@@ -201,8 +203,8 @@ Section DoubleSweep.
   Hypothesis nn_p2 : forall c, cnn c -> vnn (p2 c).
 
   Definition dsweep (l : list (Z * cell)) : list (Z * cell) :=
-    rev (sweep getB setB p1 p2 mk pen blocked nt None 0 true
-           (rev (sweep getF setF p1 p2 mk pen blocked nt None 0 true l))).
+    rev (sweep getB setB p1 p2 mk pen blocked nt ni no None 0 true
+           (rev (sweep getF setF p1 p2 mk pen blocked nt ni no None 0 true l))).
 
   Definition ds_rel (a b : Z * cell) : Prop :=
     fst b = fst a /\ p1 (snd b) = p1 (snd a) /\ p2 (snd b) = p2 (snd a) /\
@@ -214,9 +216,9 @@ Section DoubleSweep.
   Lemma dsweep_rel l : Forall2 ds_rel l (dsweep l).
   Proof.
     unfold dsweep.
-    set (l1 := sweep getF setF p1 p2 mk pen blocked nt None 0 true l).
-    pose proof (sweep_rel getF setF p1 p2 mk pen blocked nt getF_setF l None 0 true) as F1. fold l1 in F1.
-    pose proof (sweep_rel getB setB p1 p2 mk pen blocked nt getB_setB (rev l1) None 0 true) as F2.
+    set (l1 := sweep getF setF p1 p2 mk pen blocked nt ni no None 0 true l).
+    pose proof (sweep_rel getF setF p1 p2 mk pen blocked nt ni no getF_setF l None 0 true) as F1. fold l1 in F1.
+    pose proof (sweep_rel getB setB p1 p2 mk pen blocked nt ni no getB_setB (rev l1) None 0 true) as F2.
     apply Forall2_rev' in F2. rewrite rev_involutive in F2.
     eapply Forall2_impl'; [|exact (Forall2_comp _ _ _ _ _ F1 F2)].
     intros a c (b & (A1 & (v1 & A2) & A3 & A4) & (B1 & (v2 & B2) & B3 & B4)).
@@ -228,49 +230,49 @@ Section DoubleSweep.
   Qed.
 
   Lemma dsweep_adj l a b : consecutive (dsweep l) a b -> blocked (fst a) (fst b) = false ->
-    vle (getF (snd b)) (vadd (getF (snd a)) (Z.abs (fst b - fst a))) /\
-    vle (getB (snd a)) (vadd (getB (snd b)) (Z.abs (fst b - fst a))).
+    (no (mk (fst a)) = false -> ni (mk (fst b)) = false -> vle (getF (snd b)) (vadd (getF (snd a)) (Z.abs (fst b - fst a)))) /\
+    (no (mk (fst b)) = false -> ni (mk (fst a)) = false -> vle (getB (snd a)) (vadd (getB (snd b)) (Z.abs (fst b - fst a)))).
   Proof.
     unfold dsweep.
-    set (l1 := sweep getF setF p1 p2 mk pen blocked nt None 0 true l).
-    intros C Hb. split.
-    - pose proof (sweep_rel getB setB p1 p2 mk pen blocked nt getB_setB (rev l1) None 0 true) as F2.
+    set (l1 := sweep getF setF p1 p2 mk pen blocked nt ni no None 0 true l).
+    intros C Hb. split; intros Hno Hni.
+    - pose proof (sweep_rel getB setB p1 p2 mk pen blocked nt ni no getB_setB (rev l1) None 0 true) as F2.
       apply Forall2_rev' in F2. rewrite rev_involutive in F2.
       destruct (Forall2_consecutive _ _ _ _ _ F2 C) as (a1 & b1 & C1 & (A1 & (va & A2) & _) & (B1 & (vb & B2) & _)).
-      pose proof (sweep_adj getF setF p1 p2 mk pen blocked nt getF_setF l None 0 true a1 b1 C1) as S.
-      rewrite A2, B2, A1, B1, !getF_setB. apply S. rewrite <- A1, <- B1. exact Hb.
+      pose proof (sweep_adj getF setF p1 p2 mk pen blocked nt ni no getF_setF l None 0 true a1 b1 C1) as S.
+      rewrite A2, B2, A1, B1, !getF_setB. apply S; rewrite <- ?A1, <- ?B1; assumption.
     - apply consecutive_rev in C.
-      pose proof (sweep_adj getB setB p1 p2 mk pen blocked nt getB_setB (rev l1) None 0 true b a C) as S.
+      pose proof (sweep_adj getB setB p1 p2 mk pen blocked nt ni no getB_setB (rev l1) None 0 true b a C) as S.
       replace (Z.abs (fst b - fst a)) with (Z.abs (fst a - fst b)) by lia.
-      apply S. rewrite blocked_sym. exact Hb.
+      apply S; [rewrite blocked_sym; exact Hb|exact Hno|exact Hni].
   Qed.
 
   (* non-negativity of all costs is preserved *)
   Lemma sweep_nn_F : forall line carry prev first, vnn carry -> (forall a, In a line -> cnn (snd a)) ->
-    forall b, In b (sweep getF setF p1 p2 mk pen blocked nt carry prev first line) -> cnn (snd b).
+    forall b, In b (sweep getF setF p1 p2 mk pen blocked nt ni no carry prev first line) -> cnn (snd b).
   Proof.
     induction line as [|[x c] t IH]; intros carry prev first Hc Hl b Hin; cbn [sweep] in Hin; [destruct Hin|].
     assert (Hcc : cnn c) by (apply (Hl (x, c)); left; reflexivity).
     match type of Hin with In b ((x, setF c ?v) :: _) => assert (Hv : vnn v) end.
     { apply vnn_vmin; [apply vnn_vmin; [apply nn_getF; assumption|]|].
-      - destruct first; [exact I|]. destruct (blocked prev x); [exact I|]. apply vnn_vadd; [lia|assumption].
+      - destruct first; [exact I|]. destruct (blocked prev x); [exact I|]. destruct (ni (mk x)); [exact I|]. apply vnn_vadd; [lia|assumption].
       - destruct (nt (mk x)); [exact I|]. apply vnn_vturn; [assumption|].
         apply vnn_vmin; [apply nn_p1|apply nn_p2]; assumption. }
     destruct Hin as [<-|Hin]; [cbn [snd]; apply nn_setF; assumption|].
-    eapply IH; [exact Hv| |exact Hin]. intros a Ha. apply Hl. right. assumption.
+    eapply IH; [| |exact Hin]; [destruct (no (mk x)); [exact I|exact Hv]|]. intros a Ha. apply Hl. right. assumption.
   Qed.
   Lemma sweep_nn_B : forall line carry prev first, vnn carry -> (forall a, In a line -> cnn (snd a)) ->
-    forall b, In b (sweep getB setB p1 p2 mk pen blocked nt carry prev first line) -> cnn (snd b).
+    forall b, In b (sweep getB setB p1 p2 mk pen blocked nt ni no carry prev first line) -> cnn (snd b).
   Proof.
     induction line as [|[x c] t IH]; intros carry prev first Hc Hl b Hin; cbn [sweep] in Hin; [destruct Hin|].
     assert (Hcc : cnn c) by (apply (Hl (x, c)); left; reflexivity).
     match type of Hin with In b ((x, setB c ?v) :: _) => assert (Hv : vnn v) end.
     { apply vnn_vmin; [apply vnn_vmin; [apply nn_getB; assumption|]|].
-      - destruct first; [exact I|]. destruct (blocked prev x); [exact I|]. apply vnn_vadd; [lia|assumption].
+      - destruct first; [exact I|]. destruct (blocked prev x); [exact I|]. destruct (ni (mk x)); [exact I|]. apply vnn_vadd; [lia|assumption].
       - destruct (nt (mk x)); [exact I|]. apply vnn_vturn; [assumption|].
         apply vnn_vmin; [apply nn_p1|apply nn_p2]; assumption. }
     destruct Hin as [<-|Hin]; [cbn [snd]; apply nn_setB; assumption|].
-    eapply IH; [exact Hv| |exact Hin]. intros a Ha. apply Hl. right. assumption.
+    eapply IH; [| |exact Hin]; [destruct (no (mk x)); [exact I|exact Hv]|]. intros a Ha. apply Hl. right. assumption.
   Qed.
   Lemma dsweep_nn l : (forall a, In a l -> cnn (snd a)) -> forall b, In b (dsweep l) -> cnn (snd b).
   Proof.
@@ -372,7 +374,7 @@ Qed.
 (* ------------------------------------------------------------------ a double sweep over every line of a grid *)
 Section GridSweep.
   Variables (getF : cell -> val) (setF : cell -> val -> cell) (getB : cell -> val) (setB : cell -> val -> cell)
-            (p1 p2 : cell -> val) (mk2 : Z -> Z -> zp) (pen : Z) (blocked2 : Z -> Z -> Z -> bool) (nt : zp -> bool).
+            (p1 p2 : cell -> val) (mk2 : Z -> Z -> zp) (pen : Z) (blocked2 : Z -> Z -> Z -> bool) (nt ni no : zp -> bool).
   Hypothesis getF_setF : forall c v, getF (setF c v) = v.
   Hypothesis getB_setF : forall c v, getB (setF c v) = getB c.
   Hypothesis p1_setF : forall c v, p1 (setF c v) = p1 c.
@@ -391,7 +393,7 @@ Section GridSweep.
   Hypothesis nn_p2 : forall c, cnn c -> vnn (p2 c).
 
   Definition line_sweep (k : Z) (l : list (Z * cell)) : list (Z * cell) :=
-    dsweep getF setF getB setB p1 p2 (mk2 k) pen (blocked2 k) nt l.
+    dsweep getF setF getB setB p1 p2 (mk2 k) pen (blocked2 k) nt ni no l.
   Definition gsweep (g : grid) : grid := map (fun row => (fst row, line_sweep (fst row) (snd row))) g.
 
   Lemma gsweep_In k l2 g : In (k, l2) (gsweep g) -> exists l, In (k, l) g /\ l2 = line_sweep k l.
@@ -424,8 +426,8 @@ Section GridSweep.
   Qed.
 
   Lemma gsweep_adj g k l a b : In (k, l) (gsweep g) -> consecutive l a b -> blocked2 k (fst a) (fst b) = false ->
-    vle (getF (snd b)) (vadd (getF (snd a)) (Z.abs (fst b - fst a))) /\
-    vle (getB (snd a)) (vadd (getB (snd b)) (Z.abs (fst b - fst a))).
+    (no (mk2 k (fst a)) = false -> ni (mk2 k (fst b)) = false -> vle (getF (snd b)) (vadd (getF (snd a)) (Z.abs (fst b - fst a)))) /\
+    (no (mk2 k (fst b)) = false -> ni (mk2 k (fst a)) = false -> vle (getB (snd a)) (vadd (getB (snd b)) (Z.abs (fst b - fst a)))).
   Proof.
     intros H C Hb. destruct (gsweep_In _ _ _ H) as (l0 & Hl & ->).
     eapply dsweep_adj; eauto.
@@ -435,18 +437,18 @@ Section GridSweep.
   Proof.
     intros Hg x y c (l2 & H & Hc). destruct (gsweep_In _ _ _ H) as (l & Hl & ->).
     change c with (snd (x, c)).
-    eapply (dsweep_nn getF setF getB setB p1 p2 (mk2 y) pen (blocked2 y) nt); eauto.
+    eapply (dsweep_nn getF setF getB setB p1 p2 (mk2 y) pen (blocked2 y) nt ni no); eauto.
     intros [a0 c0] Ha. cbn [snd]. eapply Hg. exists l. eauto.
   Qed.
 End GridSweep.
 
-Lemma sweep_rows_eq rs pen nt g :
-  sweep_rows rs pen nt g =
-  gsweep cE setE cW setW cN cS (fun y x => (x, y)) pen (fun y a b => hblocked rs (Z.min a b) (Z.max a b) y) nt g.
+Lemma sweep_rows_eq rs pen nt ni no g :
+  sweep_rows rs pen nt ni no g =
+  gsweep cE setE cW setW cN cS (fun y x => (x, y)) pen (fun y a b => hblocked rs (Z.min a b) (Z.max a b) y) nt ni no g.
 Proof. unfold sweep_rows, gsweep. apply map_ext. intros [y l]. reflexivity. Qed.
-Lemma sweep_cols_eq rs pen nt g :
-  sweep_cols rs pen nt g =
-  gsweep cS setS cN setN cE cW (fun x y => (x, y)) pen (fun x a b => vblocked rs (Z.min a b) (Z.max a b) x) nt g.
+Lemma sweep_cols_eq rs pen nt ni no g :
+  sweep_cols rs pen nt ni no g =
+  gsweep cS setS cN setN cE cW (fun x y => (x, y)) pen (fun x a b => vblocked rs (Z.min a b) (Z.max a b) x) nt ni no g.
 Proof. unfold sweep_cols, gsweep. apply map_ext. intros [x l]. reflexivity. Qed.
 
 (* ------------------------------------------------------------------ equal signatures = equal costs, cell by cell *)
@@ -516,13 +518,15 @@ Qed.
 (* ------------------------------------------------------------------ one round *)
 Definition gnn (g : grid) : Prop := forall x y c, At g x y c -> cnn c.
 
-Definition Closed (rs : list rect) (pen : Z) (nt : zp -> bool) (xs ys : list Z) (g : grid) : Prop :=
+Definition Closed (rs : list rect) (pen : Z) (nt ni no : zp -> bool) (xs ys : list Z) (g : grid) : Prop :=
   (forall x x' y c c', consecutive xs x x' -> At g x y c -> At g x' y c' ->
      hblocked rs (Z.min x x') (Z.max x x') y = false ->
-     vle (cE c') (vadd (cE c) (Z.abs (x' - x))) /\ vle (cW c) (vadd (cW c') (Z.abs (x' - x)))) /\
+     (no (x, y) = false -> ni (x', y) = false -> vle (cE c') (vadd (cE c) (Z.abs (x' - x)))) /\
+     (no (x', y) = false -> ni (x, y) = false -> vle (cW c) (vadd (cW c') (Z.abs (x' - x))))) /\
   (forall x y y' c c', consecutive ys y y' -> At g x y c -> At g x y' c' ->
      vblocked rs (Z.min y y') (Z.max y y') x = false ->
-     vle (cS c') (vadd (cS c) (Z.abs (y' - y))) /\ vle (cN c) (vadd (cN c') (Z.abs (y' - y)))) /\
+     (no (x, y) = false -> ni (x, y') = false -> vle (cS c') (vadd (cS c) (Z.abs (y' - y)))) /\
+     (no (x, y') = false -> ni (x, y) = false -> vle (cN c) (vadd (cN c') (Z.abs (y' - y))))) /\
   (forall x y c, At g x y c -> nt (x, y) = false ->
      vle (cE c) (vturn (vmin (cN c) (cS c)) pen (x, y)) /\ vle (cW c) (vturn (vmin (cN c) (cS c)) pen (x, y)) /\
      vle (cN c) (vturn (vmin (cE c) (cW c)) pen (x, y)) /\ vle (cS c) (vturn (vmin (cE c) (cW c)) pen (x, y))).
@@ -534,7 +538,7 @@ Lemma cnn_set c v : cnn c -> vnn v -> cnn (setN c v) /\ cnn (setE c v) /\ cnn (s
 Proof. unfold cnn. cbn. tauto. Qed.
 
 Section Round.
-  Variables (rs : list rect) (pen : Z) (nt : zp -> bool) (xs ys : list Z).
+  Variables (rs : list rect) (pen : Z) (nt ni no : zp -> bool) (xs ys : list Z).
   Hypothesis pen_nn : 0 <= pen.
   Hypothesis NDx : NoDup xs.
   Hypothesis NDy : NoDup ys.
@@ -543,15 +547,15 @@ Section Round.
 
   Let hb := fun y a b => hblocked rs (Z.min a b) (Z.max a b) y.
   Let vb := fun x a b => vblocked rs (Z.min a b) (Z.max a b) x.
-  Let RS := gsweep cE setE cW setW cN cS (fun y x => (x, y)) pen hb nt.
-  Let CS := gsweep cS setS cN setN cE cW (fun x y => (x, y)) pen vb nt.
+  Let RS := gsweep cE setE cW setW cN cS (fun y x => (x, y)) pen hb nt ni no.
+  Let CS := gsweep cS setS cN setN cE cW (fun x y => (x, y)) pen vb nt ni no.
 
   Lemma hb_sym y a b : hb y a b = hb y b a.
   Proof. unfold hb. rewrite Z.min_comm, Z.max_comm. reflexivity. Qed.
   Lemma vb_sym x a b : vb x a b = vb x b a.
   Proof. unfold vb. rewrite Z.min_comm, Z.max_comm. reflexivity. Qed.
 
-  Lemma round_eq g : round rs pen nt g = transpose (CS (transpose (RS g))).
+  Lemma round_eq g : round rs pen nt ni no g = transpose (CS (transpose (RS g))).
   Proof. unfold round, RS, CS. rewrite sweep_rows_eq, sweep_cols_eq. reflexivity. Qed.
 
   Section OneGrid.
@@ -587,12 +591,12 @@ Section Round.
                          vle (cN c') (vturn (vmin (cE c2) (cW c2)) pen (x, y))).
   Proof.
     intro A. apply At_g'_G3 in A.
-    destruct (gsweep_rel cS setS cN setN cE cW (fun x y => (x, y)) pen vb nt
+    destruct (gsweep_rel cS setS cN setN cE cW (fun x y => (x, y)) pen vb nt ni no
                 ltac:(reflexivity) ltac:(reflexivity) ltac:(reflexivity) ltac:(reflexivity)
                 ltac:(reflexivity) ltac:(reflexivity) ltac:(reflexivity) ltac:(reflexivity) G2 y x c' A)
       as (c2 & A2 & B1 & B2 & B3 & B4 & B5).
     apply At_G2_G1 in A2.
-    destruct (gsweep_rel cE setE cW setW cN cS (fun y x => (x, y)) pen hb nt
+    destruct (gsweep_rel cE setE cW setW cN cS (fun y x => (x, y)) pen hb nt ni no
                 ltac:(reflexivity) ltac:(reflexivity) ltac:(reflexivity) ltac:(reflexivity)
                 ltac:(reflexivity) ltac:(reflexivity) ltac:(reflexivity) ltac:(reflexivity) g x y c2 A2)
       as (c0 & A0 & D1 & D2 & D3 & D4 & D5).
@@ -613,15 +617,15 @@ Section Round.
   Lemma round_nn : gnn g -> gnn g'.
   Proof.
     intros Hg x y c A. apply At_g'_G3 in A. revert y x c A.
-    apply (gsweep_nn cS setS cN setN cE cW (fun x y => (x, y)) pen vb nt pen_nn); try (intros c v Hc Hv; apply cnn_set; assumption);
+    apply (gsweep_nn cS setS cN setN cE cW (fun x y => (x, y)) pen vb nt ni no pen_nn); try (intros c v Hc Hv; apply cnn_set; assumption);
       try (intros c Hc; apply Hc).
     intros y x c A. apply At_G2_G1 in A. revert x y c A.
-    apply (gsweep_nn cE setE cW setW cN cS (fun y x => (x, y)) pen hb nt pen_nn); try (intros c v Hc Hv; apply cnn_set; assumption);
+    apply (gsweep_nn cE setE cW setW cN cS (fun y x => (x, y)) pen hb nt ni no pen_nn); try (intros c v Hc Hv; apply cnn_set; assumption);
       try (intros c Hc; apply Hc).
     exact Hg.
   Qed.
 
-  Lemma round_closed : gnn g -> signature g = signature g' -> Closed rs pen nt xs ys g'.
+  Lemma round_closed : gnn g -> signature g = signature g' -> Closed rs pen nt ni no xs ys g'.
   Proof.
     intros Hg Hsig.
     pose proof W1 as HW1. pose proof W3 as HW3. pose proof W4 as HW4.
@@ -641,10 +645,10 @@ Section Round.
       destruct (consecutive_In _ _ _ Ce) as [Ie Ie'].
       assert (e = c2) by (eapply (At_fun G1 ys xs x y); eauto; exists l; auto).
       assert (e' = c2') by (eapply (At_fun G1 ys xs x' y); eauto; exists l; auto). subst e e'.
-      pose proof (gsweep_adj cE setE cW setW cN cS (fun y x => (x, y)) pen hb nt
+      pose proof (gsweep_adj cE setE cW setW cN cS (fun y x => (x, y)) pen hb nt ni no
                     ltac:(reflexivity) ltac:(reflexivity) ltac:(reflexivity) hb_sym
                     g y l (x, c2) (x', c2') Hl Ce Hb) as [M1 M2].
-      cbn [fst snd] in M1, M2. rewrite E1, E2, E1', E2'. auto.
+      cbn [fst snd] in M1, M2. rewrite E1, E2, E1', E2'. split; assumption.
     - (* vertical moves *)
       intros x y y' c c' C A A' Hb.
       apply At_g'_G3 in A. apply At_g'_G3 in A'.
@@ -653,10 +657,10 @@ Section Round.
       destruct (consecutive_In _ _ _ Ce) as [Ie Ie'].
       assert (e = c) by (eapply (At_fun G3 xs ys y x); eauto; exists l; auto).
       assert (e' = c') by (eapply (At_fun G3 xs ys y' x); eauto; exists l; auto). subst e e'.
-      pose proof (gsweep_adj cS setS cN setN cE cW (fun x y => (x, y)) pen vb nt
+      pose proof (gsweep_adj cS setS cN setN cE cW (fun x y => (x, y)) pen vb nt ni no
                     ltac:(reflexivity) ltac:(reflexivity) ltac:(reflexivity) vb_sym
                     G2 x l (y, c) (y', c') Hl Ce Hb) as [M1 M2].
-      cbn [fst snd] in M1, M2. auto.
+      cbn [fst snd] in M1, M2. split; assumption.
     - (* turns *)
       intros x y c A Hne.
       destruct (round_cell _ _ _ A) as (c0 & c2 & A0 & _ & R1 & R2 & _ & _ & R5 & E1 & E2 & _ & _ & R10).
@@ -751,16 +755,20 @@ Definition perp (d d' : Z) : Prop :=
   ((d = 0 \/ d = 2) /\ (d' = 1 \/ d' = 3)) \/ ((d = 1 \/ d = 3) /\ (d' = 0 \/ d' = 2)).
 
 Section GridGraph.
-  Variables (rs : list rect) (xs ys : list Z) (pen : Z) (nt : zp -> bool).
+  Variables (rs : list rect) (xs ys : list Z) (pen : Z) (nt ni no : zp -> bool).
 
   Inductive gstep : gstate -> gstate -> Z -> Prop :=
   | gs_E x x' y : In y ys -> consecutive xs x x' -> hblocked rs (Z.min x x') (Z.max x x') y = false ->
+                  no (x, y) = false -> ni (x', y) = false ->
                   gstep ((x, y), 1) ((x', y), 1) (Z.abs (x' - x))
   | gs_W x x' y : In y ys -> consecutive xs x' x -> hblocked rs (Z.min x' x) (Z.max x' x) y = false ->
+                  no (x, y) = false -> ni (x', y) = false ->
                   gstep ((x, y), 3) ((x', y), 3) (Z.abs (x - x'))
   | gs_S x y y' : In x xs -> consecutive ys y y' -> vblocked rs (Z.min y y') (Z.max y y') x = false ->
+                  no (x, y) = false -> ni (x, y') = false ->
                   gstep ((x, y), 2) ((x, y'), 2) (Z.abs (y' - y))
   | gs_N x y y' : In x xs -> consecutive ys y' y -> vblocked rs (Z.min y' y) (Z.max y' y) x = false ->
+                  no (x, y) = false -> ni (x, y') = false ->
                   gstep ((x, y), 0) ((x, y'), 0) (Z.abs (y - y'))
   | gs_turn x y d d' : In x xs -> In y ys -> nt (x, y) = false -> perp d d' ->
                   gstep ((x, y), d) ((x, y), d') pen.
@@ -779,18 +787,18 @@ Lemma vle_Some_turn a C pen p : vle a (Some (C, [])) -> vle (vturn a pen p) (Som
 Proof. destruct a as [[ca pa]|]; cbn; [lia|tauto]. Qed.
 
 Section Walks.
-  Variables (rs : list rect) (xs ys : list Z) (pen : Z) (src : zp) (nt : zp -> bool) (sd : Z) (g : grid).
+  Variables (rs : list rect) (xs ys : list Z) (pen : Z) (src : zp) (nt ni no : zp -> bool) (sd : Z) (g : grid).
   Hypothesis NDx : NoDup xs.
   Hypothesis NDy : NoDup ys.
   Hypothesis Wg : wf g ys xs.
-  Hypothesis Cg : Closed rs pen nt xs ys g.
+  Hypothesis Cg : Closed rs pen nt ni no xs ys g.
   Hypothesis Sx : In (fst src) xs.
   Hypothesis Sy : In (snd src) ys.
   Hypothesis Bg : forall c, At g (fst src) (snd src) c ->
                   forall d, 0 <= d <= 3 -> dir_allowed sd d = true -> vle (fld d c) (Some (0, [])).
 
   Lemma walk_bound d0 : 0 <= d0 <= 3 -> dir_allowed sd d0 = true ->
-    forall st C, gwalk rs xs ys pen nt (src, d0) st C ->
+    forall st C, gwalk rs xs ys pen nt ni no (src, d0) st C ->
       0 <= snd st <= 3 /\ exists c, At g (fst (fst st)) (snd (fst st)) c /\ vle (fld (snd st) c) (Some (C, [])).
   Proof.
     intros Hd0 Ha st C Hw. destruct Cg as (CH & CV & CT).
@@ -798,28 +806,28 @@ Section Walks.
     - cbn [fst snd]. split; [exact Hd0|].
       destruct (At_exists g ys xs _ _ Wg Sy Sx) as (c & Hc). exists c. split; [exact Hc|]. apply Bg; assumption.
     - destruct IH as (Hr & c0 & A0 & V0).
-      destruct Hs as [x x' y Hy Cx Hb|x x' y Hy Cx Hb|x y y' Hx Cy Hb|x y y' Hx Cy Hb|x y d d' Hx Hy Hne Hp];
+      destruct Hs as [x x' y Hy Cx Hb Hno Hni|x x' y Hy Cx Hb Hno Hni|x y y' Hx Cy Hb Hno Hni|x y y' Hx Cy Hb Hno Hni|x y d d' Hx Hy Hne Hp];
         cbn [fst snd] in *.
       + split; [lia|]. destruct (consecutive_In _ _ _ Cx) as [_ Ix'].
         destruct (At_exists g ys xs x' y Wg Hy Ix') as (c' & A').
         exists c'. split; [exact A'|].
         destruct (CH x x' y c0 c' Cx A0 A' Hb) as [M _].
-        eapply vle_trans; [exact M|]. apply vle_Some_add. exact V0.
+        eapply vle_trans; [exact (M Hno Hni)|]. apply vle_Some_add. exact V0.
       + split; [lia|]. destruct (consecutive_In _ _ _ Cx) as [Ix' _].
         destruct (At_exists g ys xs x' y Wg Hy Ix') as (c' & A').
         exists c'. split; [exact A'|].
         destruct (CH x' x y c' c0 Cx A' A0 Hb) as [_ M].
-        eapply vle_trans; [exact M|]. apply vle_Some_add. exact V0.
+        eapply vle_trans; [exact (M Hno Hni)|]. apply vle_Some_add. exact V0.
       + split; [lia|]. destruct (consecutive_In _ _ _ Cy) as [_ Iy'].
         destruct (At_exists g ys xs x y' Wg Iy' Hx) as (c' & A').
         exists c'. split; [exact A'|].
         destruct (CV x y y' c0 c' Cy A0 A' Hb) as [M _].
-        eapply vle_trans; [exact M|]. apply vle_Some_add. exact V0.
+        eapply vle_trans; [exact (M Hno Hni)|]. apply vle_Some_add. exact V0.
       + split; [lia|]. destruct (consecutive_In _ _ _ Cy) as [Iy' _].
         destruct (At_exists g ys xs x y' Wg Iy' Hx) as (c' & A').
         exists c'. split; [exact A'|].
         destruct (CV x y' y c' c0 Cy A' A0 Hb) as [_ M].
-        eapply vle_trans; [exact M|]. apply vle_Some_add. exact V0.
+        eapply vle_trans; [exact (M Hno Hni)|]. apply vle_Some_add. exact V0.
       + destruct (CT x y c0 A0 Hne) as (T1 & T2 & T3 & T4).
         split; [unfold perp in Hp; lia|]. exists c0. split; [exact A0|].
         assert (VNS : d = 0 \/ d = 2 -> vle (vmin (cN c0) (cS c0)) (Some (C, []))).
@@ -891,7 +899,7 @@ Proof.
 Qed.
 
 Section Iterate.
-  Variables (rs : list rect) (pen : Z) (src : zp) (nt : zp -> bool) (sd : Z) (xs ys : list Z).
+  Variables (rs : list rect) (pen : Z) (src : zp) (nt ni no : zp -> bool) (sd : Z) (xs ys : list Z).
   Hypothesis pen_nn : 0 <= pen.
   Hypothesis NDx : NoDup xs.
   Hypothesis NDy : NoDup ys.
@@ -899,28 +907,28 @@ Section Iterate.
   Hypothesis NEy : ys <> [].
 
   Lemma round_inv g : wf g ys xs -> gnn g -> src_ok src sd g ->
-    wf (round rs pen nt g) ys xs /\ gnn (round rs pen nt g) /\ src_ok src sd (round rs pen nt g).
+    wf (round rs pen nt ni no g) ys xs /\ gnn (round rs pen nt ni no g) /\ src_ok src sd (round rs pen nt ni no g).
   Proof.
     intros W Hn Hs. rewrite round_eq. split; [|split].
-    - exact (W4 rs pen nt xs ys NEx NEy g W).
-    - exact (round_nn rs pen nt xs ys pen_nn NEx NEy g W Hn).
+    - exact (W4 rs pen nt ni no xs ys NEx NEy g W).
+    - exact (round_nn rs pen nt ni no xs ys pen_nn NEx NEy g W Hn).
     - intros c' A d Hd Ha.
-      destruct (round_mono rs pen nt xs ys NEx NEy g W _ _ _ A) as (c0 & A0 & M0 & M1 & M2 & M3).
+      destruct (round_mono rs pen nt ni no xs ys NEx NEy g W _ _ _ A) as (c0 & A0 & M0 & M1 & M2 & M3).
       specialize (Hs c0 A0 d Hd Ha).
       assert (D : d = 0 \/ d = 1 \/ d = 2 \/ d = 3) by lia.
       destruct D as [->|[->|[->| ->]]]; cbn [fld Z.eqb] in *; eapply vle_trans; eassumption.
   Qed.
 
   Lemma iterate_inv : forall fuel g g', wf g ys xs -> gnn g -> src_ok src sd g ->
-    iterate fuel rs pen nt g = Some g' ->
-    wf g' ys xs /\ src_ok src sd g' /\ Closed rs pen nt xs ys g'.
+    iterate fuel rs pen nt ni no g = Some g' ->
+    wf g' ys xs /\ src_ok src sd g' /\ Closed rs pen nt ni no xs ys g'.
   Proof.
     induction fuel as [|n IH]; intros g g' W Hn Hs H; cbn [iterate] in H; [discriminate|].
     destruct (round_inv g W Hn Hs) as (W' & Hn' & Hs').
-    destruct (zlist_eqb (signature g) (signature (round rs pen nt g))) eqn:E.
+    destruct (zlist_eqb (signature g) (signature (round rs pen nt ni no g))) eqn:E.
     - inversion H; subst g'. split; [exact W'|]. split; [exact Hs'|].
       apply zlist_eqb_eq in E. revert E. rewrite round_eq. intro E.
-      exact (round_closed rs pen nt xs ys pen_nn NDx NDy NEx NEy g W Hn E).
+      exact (round_closed rs pen nt ni no xs ys pen_nn NDx NDy NEx NEy g W Hn E).
     - eapply IH; eassumption.
   Qed.
 End Iterate.
@@ -943,7 +951,7 @@ Section Main.
   Let ys := hanan_ys rs src dst.
 
   Lemma search_facts r : search rs src dst pen sd ad fuel = Some r ->
-    exists g, wf g ys xs /\ src_ok src sd g /\ Closed rs pen (noturn src dst) xs ys g /\
+    exists g, wf g ys xs /\ src_ok src sd g /\ Closed rs pen (noturn src dst) (fun p => zp_eqb p src) (fun p => zp_eqb p dst) xs ys g /\
       exists c, lookup g dst = Some c /\
         r = match vmin (vmin (if dir_allowed ad 0 then cN c else None) (if dir_allowed ad 1 then cE c else None))
                        (vmin (if dir_allowed ad 2 then cS c else None) (if dir_allowed ad 3 then cW c else None)) with
@@ -956,8 +964,8 @@ Section Main.
     fold xs in NDx, Sx, Dx. fold ys in NDy, Sy, Dy.
     assert (NEx : xs <> []) by (intro E; rewrite E in Sx; destruct Sx).
     assert (NEy : ys <> []) by (intro E; rewrite E in Sy; destruct Sy).
-    destruct (iterate fuel rs pen (noturn src dst) (init_grid xs ys src sd)) as [g|] eqn:It; [|discriminate].
-    destruct (iterate_inv rs pen src (noturn src dst) sd xs ys pen_nn NDx NDy NEx NEy fuel _ g
+    destruct (iterate fuel rs pen (noturn src dst) (fun p => zp_eqb p src) (fun p => zp_eqb p dst) (init_grid xs ys src sd)) as [g|] eqn:It; [|discriminate].
+    destruct (iterate_inv rs pen src (noturn src dst) (fun p => zp_eqb p src) (fun p => zp_eqb p dst) sd xs ys pen_nn NDx NDy NEx NEy fuel _ g
                 (init_grid_wf xs ys src sd) (init_grid_nn xs ys src sd) (init_grid_src xs ys src sd) It)
       as (W & Hs & Cl).
     intro H. exists g. split; [exact W|]. split; [exact Hs|]. split; [exact Cl|].
@@ -967,14 +975,14 @@ Section Main.
   Qed.
 
   (* every walk of the grid graph ends with a label below its cost *)
-  Lemma walk_label g c d0 d1 C : wf g ys xs -> src_ok src sd g -> Closed rs pen (noturn src dst) xs ys g ->
+  Lemma walk_label g c d0 d1 C : wf g ys xs -> src_ok src sd g -> Closed rs pen (noturn src dst) (fun p => zp_eqb p src) (fun p => zp_eqb p dst) xs ys g ->
     lookup g dst = Some c -> 0 <= d0 <= 3 -> dir_allowed sd d0 = true ->
-    gwalk rs xs ys pen (noturn src dst) (src, d0) (dst, d1) C -> 0 <= d1 <= 3 /\ vle (fld d1 c) (Some (C, [])).
+    gwalk rs xs ys pen (noturn src dst) (fun p => zp_eqb p src) (fun p => zp_eqb p dst) (src, d0) (dst, d1) C -> 0 <= d1 <= 3 /\ vle (fld d1 c) (Some (C, [])).
   Proof.
     intros W Hs Cl L Hd0 Ha Hw.
     destruct (hanan_xs_ok rs src dst) as (NDx & Sx & Dx). destruct (hanan_ys_ok rs src dst) as (NDy & Sy & Dy).
     fold xs in NDx, Sx, Dx. fold ys in NDy, Sy, Dy.
-    destruct (walk_bound rs xs ys pen src (noturn src dst) sd g W Cl Sx Sy Hs d0 Hd0 Ha _ _ Hw) as (Hr & c' & A' & V).
+    destruct (walk_bound rs xs ys pen src (noturn src dst) (fun p => zp_eqb p src) (fun p => zp_eqb p dst) sd g W Cl Sx Sy Hs d0 Hd0 Ha _ _ Hw) as (Hr & c' & A' & V).
     cbn [fst snd] in *. split; [exact Hr|].
     rewrite (At_fun g ys xs _ _ c c' W NDy NDx (lookup_At _ _ _ L) A'). exact V.
   Qed.
@@ -982,7 +990,7 @@ Section Main.
   Theorem grid_oracle_optimal k p :
     oracle_dirs rs src dst pen sd ad fuel = OR_cost k p ->
     forall d0 d1 C, 0 <= d0 <= 3 -> dir_allowed sd d0 = true -> dir_allowed ad d1 = true ->
-      gwalk rs xs ys pen (noturn src dst) (src, d0) (dst, d1) C -> k <= C.
+      gwalk rs xs ys pen (noturn src dst) (fun p => zp_eqb p src) (fun p => zp_eqb p dst) (src, d0) (dst, d1) C -> k <= C.
   Proof.
     unfold oracle_dirs. destruct (search rs src dst pen sd ad fuel) as [[[k0 p0]|]|] eqn:S; try discriminate.
     destruct (check_path_dirs rs src dst pen sd ad p0) as [k'|]; try discriminate.
@@ -1013,7 +1021,7 @@ Section Main.
   Theorem grid_oracle_unreachable :
     oracle_dirs rs src dst pen sd ad fuel = OR_unreachable ->
     forall d0 d1 C, 0 <= d0 <= 3 -> dir_allowed sd d0 = true -> dir_allowed ad d1 = true ->
-      ~ gwalk rs xs ys pen (noturn src dst) (src, d0) (dst, d1) C.
+      ~ gwalk rs xs ys pen (noturn src dst) (fun p => zp_eqb p src) (fun p => zp_eqb p dst) (src, d0) (dst, d1) C.
   Proof.
     unfold oracle_dirs. destruct (search rs src dst pen sd ad fuel) as [[[k0 p0]|]|] eqn:S; try discriminate.
     { destruct (check_path_dirs rs src dst pen sd ad p0) as [k'|]; [destruct (k0 =? k')|]; discriminate. }
@@ -1044,7 +1052,7 @@ End Main.
 Theorem grid_oracle_optimal_plain rs src dst pen fuel k p :
   0 <= pen -> oracle rs src dst pen fuel = OR_cost k p ->
   forall d0 d1 C, 0 <= d0 <= 3 -> 0 <= d1 <= 3 ->
-    gwalk rs (hanan_xs rs src dst) (hanan_ys rs src dst) pen (noturn src dst) (src, d0) (dst, d1) C -> k <= C.
+    gwalk rs (hanan_xs rs src dst) (hanan_ys rs src dst) pen (noturn src dst) (fun p => zp_eqb p src) (fun p => zp_eqb p dst) (src, d0) (dst, d1) C -> k <= C.
 Proof.
   intros Hp H d0 d1 C Hd0 Hd1 Hw.
   assert (A : forall d, 0 <= d <= 3 -> dir_allowed 15 d = true).
@@ -1061,7 +1069,7 @@ Example ex_hanan : hanan_xs [mkrect 2 0 4 6] (0, 3) (6, 3) = [0; 2; 4; 6] /\
 Proof. split; reflexivity. Qed.
 
 Example ex_walk_32 :
-  gwalk [mkrect 2 0 4 6] [0; 2; 4; 6] [0; 3; 6] 10 (noturn (0, 3) (6, 3)) ((0, 3), 0) ((6, 3), 2) 32.
+  gwalk [mkrect 2 0 4 6] [0; 2; 4; 6] [0; 3; 6] 10 (noturn (0, 3) (6, 3)) (fun p => zp_eqb p (0, 3)) (fun p => zp_eqb p (6, 3)) ((0, 3), 0) ((6, 3), 2) 32.
 Proof.
   assert (C01 : consecutive [0; 3; 6] 0 3) by constructor.
   assert (X02 : consecutive [0; 2; 4; 6] 0 2) by constructor.
@@ -1070,13 +1078,13 @@ Proof.
   change 32 with (0 + Z.abs (3 - 0) + 10 + Z.abs (2 - 0) + Z.abs (4 - 2) + Z.abs (6 - 4) + 10 + Z.abs (3 - 0)).
   eapply gw_snoc; [eapply gw_snoc; [eapply gw_snoc; [eapply gw_snoc; [eapply gw_snoc; [eapply gw_snoc;
     [eapply gw_snoc; [apply gw_nil|] |] |] |] |] |] |].
-  - apply (gs_N _ _ _ _ _ 0 3 0); [cbn; tauto|exact C01|reflexivity].
-  - apply (gs_turn _ _ _ _ _ 0 0 0 1); [cbn; tauto|cbn; tauto|reflexivity|unfold perp; lia].
-  - apply gs_E; [cbn; tauto|exact X02|reflexivity].
-  - apply gs_E; [cbn; tauto|exact X24|reflexivity].
-  - apply gs_E; [cbn; tauto|exact X46|reflexivity].
-  - apply (gs_turn _ _ _ _ _ 6 0 1 2); [cbn; tauto|cbn; tauto|reflexivity|unfold perp; lia].
-  - apply gs_S; [cbn; tauto|exact C01|reflexivity].
+  - apply (gs_N _ _ _ _ _ _ _ 0 3 0); [cbn; tauto|exact C01|reflexivity|reflexivity|reflexivity].
+  - apply (gs_turn _ _ _ _ _ _ _ 0 0 0 1); [cbn; tauto|cbn; tauto|reflexivity|unfold perp; lia].
+  - apply gs_E; [cbn; tauto|exact X02|reflexivity|reflexivity|reflexivity].
+  - apply gs_E; [cbn; tauto|exact X24|reflexivity|reflexivity|reflexivity].
+  - apply gs_E; [cbn; tauto|exact X46|reflexivity|reflexivity|reflexivity].
+  - apply (gs_turn _ _ _ _ _ _ _ 6 0 1 2); [cbn; tauto|cbn; tauto|reflexivity|unfold perp; lia].
+  - apply gs_S; [cbn; tauto|exact C01|reflexivity|reflexivity|reflexivity].
 Qed.
 
 Example ex_straight_blocked : hblocked [mkrect 2 0 4 6] 2 4 3 = true.
@@ -1086,7 +1094,7 @@ Proof. reflexivity. Qed.
 Example ex_optimal_attained :
   exists p, oracle [mkrect 2 0 4 6] (0, 3) (6, 3) 10 20 = OR_cost 32 p /\
             gwalk [mkrect 2 0 4 6] (hanan_xs [mkrect 2 0 4 6] (0, 3) (6, 3)) (hanan_ys [mkrect 2 0 4 6] (0, 3) (6, 3))
-                  10 (noturn (0, 3) (6, 3)) ((0, 3), 0) ((6, 3), 2) 32.
+                  10 (noturn (0, 3) (6, 3)) (fun p => zp_eqb p (0, 3)) (fun p => zp_eqb p (6, 3)) ((0, 3), 0) ((6, 3), 2) 32.
 Proof. eexists. split; [vm_compute; reflexivity|exact ex_walk_32]. Qed.
 
 (* direction-restricted endpoints (libavoid ConnDirFlags of free-floating connector ends; sd = mask of allowed directions of the FIRST
@@ -1097,7 +1105,7 @@ Proof. eexists. split; [vm_compute; reflexivity|exact ex_walk_32]. Qed.
 Example ex_dirs_attained :
   exists p, oracle_dirs [mkrect 2 0 4 6] (0, 3) (6, 3) 10 1 4 20 = OR_cost 32 p /\
             gwalk [mkrect 2 0 4 6] (hanan_xs [mkrect 2 0 4 6] (0, 3) (6, 3)) (hanan_ys [mkrect 2 0 4 6] (0, 3) (6, 3))
-                  10 (noturn (0, 3) (6, 3)) ((0, 3), 0) ((6, 3), 2) 32 /\
+                  10 (noturn (0, 3) (6, 3)) (fun p => zp_eqb p (0, 3)) (fun p => zp_eqb p (6, 3)) ((0, 3), 0) ((6, 3), 2) 32 /\
             dir_allowed 1 0 = true /\ dir_allowed 4 2 = true.
 Proof. eexists. split; [vm_compute; reflexivity|]. split; [exact ex_walk_32|split; reflexivity]. Qed.
 
